@@ -1457,8 +1457,18 @@ func wireKeys(d *spec.Design, raw json.RawMessage, u *spec.UserType, view string
 				continue
 			}
 		}
-		if f != nil && f.Type.Kind == spec.User && obj[fn] != nil && so[fn] != nil {
-			if nu := d.UserType(f.Type.Name); nu != nil && nu.IsResult {
+		if nu, arr := gen.NestedRT(d, f); nu != nil && obj[fn] != nil && so[fn] != nil {
+			if arr {
+				var raws []json.RawMessage
+				ses, _ := so[fn].([]any)
+				if err := json.Unmarshal(obj[fn], &raws); err != nil || len(raws) != len(ses) {
+					errs = append(errs, fmt.Sprintf("%s.%s is not a JSON array of %d elements", path, fn, len(ses)))
+					continue
+				}
+				for i := range raws {
+					errs = append(errs, wireKeys(d, raws[i], nu, vw.NestedView(f), ses[i], fmt.Sprintf("%s.%s[%d]", path, fn, i))...)
+				}
+			} else {
 				errs = append(errs, wireKeys(d, obj[fn], nu, vw.NestedView(f), so[fn], path+"."+fn)...)
 			}
 		}
@@ -1556,6 +1566,10 @@ func judgeView(o *engine.Outcome, w *world, d *spec.Design, s *spec.Service, m *
 		}
 		return
 	}
+	if cerr != nil && strings.Contains(cerr.Error(), "is missing from") && nestedUnderSeveralViews(d, s, u, rendered) {
+		o.Violate("view_client_error", "view:nested-type-under-several-views-in-one-service", "%s: rendering view %q failed at the client: %v\n  body %q", where, rendered, cerr, clipS(string(ex.RespBody)))
+		return
+	}
 	if cerr != nil {
 		o.Violate("view_client_error", "view_client_error:"+errName(cerr)+":"+sig, "%s: rendering view %q of %s failed at the client: %v\n  full value %s\n  body %q", where, rendered, gen.Show(sent), cerr, gen.Show(sent), clipS(string(ex.RespBody)))
 		return
@@ -1565,6 +1579,9 @@ func judgeView(o *engine.Outcome, w *world, d *spec.Design, s *spec.Service, m *
 	gotIn := gen.Project(d, got, u, rendered)
 	if diff := gen.Diff(want, gotIn, ""); diff != "" && sameTypeTwoViews && underAffected(memoAffected(d, u, rendered), strings.TrimPrefix(diff, ".")) {
 		o.Violate("view_value", "view:same-nested-type-under-two-views", "%s: view %q: %s", where, rendered, diff)
+	} else if diff != "" && strings.Contains(diff, ".") && strings.Contains(diff, "got <unset>") && nestedUnderSeveralViews(d, s, u, rendered) {
+		// the same helper, silently: the attributes it does not copy are optional, so nothing complains
+		o.Violate("view_value", "view:nested-type-under-several-views-in-one-service", "%s: view %q: %s", where, rendered, diff)
 	} else if diff != "" {
 		o.Violate("view_value", "view_value:"+sig, "%s: view %q: %s\n  service returned %s\n  client rebuilt   %s", where, rendered, diff, gen.Show(sent), gen.Show(got))
 	}
@@ -1828,6 +1845,53 @@ func sameNestedTypeTwoViews(d *spec.Design, x *spec.UserType) bool {
 	return false
 }
 
+// nestedUnderSeveralViews reports whether rendering u with view reaches a nested result type that the SAME
+// service also renders, somewhere, with another view (recorded defect: the generated client has one
+// unmarshal helper per nested type NAME, built for whichever view was generated first).
+func nestedUnderSeveralViews(d *spec.Design, s *spec.Service, u *spec.UserType, view string) bool {
+	used := map[string]map[string]bool{}
+	var walk func(u *spec.UserType, view string, depth int, hit func(nu *spec.UserType))
+	walk = func(u *spec.UserType, view string, depth int, hit func(nu *spec.UserType)) {
+		vw := gen.ViewOf(u, view)
+		if vw == nil || depth > 8 {
+			return
+		}
+		for _, name := range vw.Fields {
+			f := u.Attr.Type.Field(name)
+			nu, _ := gen.NestedRT(d, f)
+			if nu == nil {
+				continue
+			}
+			own := vw.NestedView(f)
+			if own == "" {
+				own = "default"
+			}
+			if used[nu.Name] == nil {
+				used[nu.Name] = map[string]bool{}
+			}
+			used[nu.Name][own] = true
+			if hit != nil {
+				hit(nu)
+			}
+			walk(nu, own, depth+1, hit)
+		}
+	}
+	for _, m := range s.Methods {
+		if ru := resultType(d, m); ru != nil {
+			for _, v := range ru.Views {
+				walk(ru, v.Name, 0, nil)
+			}
+		}
+	}
+	several := false
+	walk(u, view, 0, func(nu *spec.UserType) {
+		if len(used[nu.Name]) > 1 {
+			several = true
+		}
+	})
+	return several
+}
+
 // memoAffected lists the attribute paths (a.b.c from the result's top level) that the recorded projection
 // defect misrenders when the result type u is rendered with view: the same replay of the memo as memoHit,
 // for one top view, keeping WHERE the wrong projection lands.
@@ -1842,11 +1906,8 @@ func memoAffected(d *spec.Design, u *spec.UserType, view string) []string {
 		}
 		for _, name := range vw.Fields {
 			f := u.Attr.Type.Field(name)
-			if f == nil || f.Type.Kind != spec.User {
-				continue
-			}
-			nu := d.UserType(f.Type.Name)
-			if nu == nil || !nu.IsResult {
+			nu, _ := gen.NestedRT(d, f)
+			if nu == nil {
 				continue
 			}
 			own := vw.NestedView(f)
@@ -1887,11 +1948,8 @@ func memoHit(d *spec.Design, u *spec.UserType, view string, seen map[string]bool
 	}
 	for _, name := range vw.Fields {
 		f := u.Attr.Type.Field(name)
-		if f == nil || f.Type.Kind != spec.User {
-			continue
-		}
-		nu := d.UserType(f.Type.Name)
-		if nu == nil || !nu.IsResult {
+		nu, _ := gen.NestedRT(d, f)
+		if nu == nil {
 			continue
 		}
 		own := vw.NestedView(f)
